@@ -155,7 +155,7 @@ def run_real(spec, mods, mol):
             top_len[0] = len(out)
         return out
 
-    def identify_wrap(residue, residue_ptms, known_ptms):
+    def identify_wrap(residue, residue_ptms, known_ptms, *rest, **kw):
         known_ptms = list(known_ptms)
         snap = {idx: (residue.nodes[idx].get('atomname'), residue.nodes[idx].get('element'),
                       bool(residue.nodes[idx].get('PTM_atom', False))) for idx in residue}
@@ -168,7 +168,7 @@ def run_real(spec, mods, mol):
         iters.append(it)
         top_len[0] = None
         try:
-            out = orig_identify(residue, residue_ptms, known_ptms)
+            out = orig_identify(residue, residue_ptms, known_ptms, *rest, **kw)
         finally:
             it['unstable'] = any(gm.unstable for _, gm in known_ptms)
         ncov = top_len[0] or 0
@@ -608,21 +608,6 @@ def gen_case(rng):
 
 
 # ----------------------------------------------------------------------------
-# known findings (signatures)
-# ----------------------------------------------------------------------------
-def finding_of(spec, run):
-    """F-C14-2: KeyError escaping fix_ptm after an earlier iteration removed atoms of a residue that
-    a later iteration touches.  F-C14-3: AssertionError from the pre-labelled branch."""
-    if run['status'] == 'crash-keyerror':
-        removed_before = any(it['result'] is None for it in run['iters'])
-        if removed_before:
-            return 'F-C14-2'
-    if run['status'] == 'crash-assert' and any(ml for k, r, p, h, ml, at in spec['atoms']):
-        return 'F-C14-3'
-    return None
-
-
-# ----------------------------------------------------------------------------
 # run
 # ----------------------------------------------------------------------------
 cases = []
@@ -674,8 +659,7 @@ for j, (cid, spec, mods, mol0, mol, run) in enumerate(meta):
     for h in spec.get('hist', []):
         chk.count('attach_' + h)
     chk.count('candidates=%s' % ('0' if ncand == 0 else '1' if ncand == 1 else '2-5' if ncand <= 5 else '6+'))
-    fnd = finding_of(spec, run) if errs else None
-    chk.case(cid, lines[2 * j], impls[2 * j], models[2 * j], errs, nontriv, finding=fnd)
+    chk.case(cid, lines[2 * j], impls[2 * j], models[2 * j], errs, nontriv)
     chk.case(cid + '-groups', lines[2 * j + 1], impls[2 * j + 1], models[2 * j + 1], [], nflag >= 2)
 
 # ----------------------------------------------------------------------------
